@@ -40,6 +40,12 @@ def run(ctx):
     ck.rule('C07-D4', 'exactly one CDX line per response record: one call of the CDX writer per append, guarded only by '
                       'record type = response and content type = http response')
 
+    ck.rule('C07-D5', 'a run that does not append starts from an empty CDX file: on every path of the function that starts the CDX '
+                      'file with `appending` false the file is truncated (or opened for writing) before the header is appended, so no '
+                      'line of an earlier run survives next to a rewritten archive; the header is written exactly when the file is new or truncated')
+    ck.rule('C07-D6', 'status line and fields are read the way the HTTP reader accepted them: the first line is cut at the same line end '
+                      'the block pattern accepts (bare LF included), and header unfolding treats a line starting with SP or HTAB as a '
+                      'continuation (RFC 7230 obs-fold), so a folded Content-Type still yields the MIME column')
     hdr = repo.func(CLS + '._write_cdx_header')
     fld = repo.func(CLS + '._write_cdx_field')
     wr = repo.func(CLS + '.write_record')
@@ -377,3 +383,203 @@ def run(ctx):
     ck.expect(okm, 'C07-D2', pm_.qual, 'MIME column = token/token match of a pattern that cannot match the delimiter',
               'the MIME type written to the CDX line can contain the column delimiter (blank): every following column is shifted '
               'and the line no longer addresses its record', pm_.loc())
+
+    _d5_fresh_cdx(ctx, hdr)
+    _d6_header_lines(ctx)
+
+
+def _tri(test, atom_pred, value):
+    """Three-valued evaluation of a boolean expression in which the atoms satisfying atom_pred have truth `value`
+    and every other atom is unknown (None)."""
+    if isinstance(test, ast.UnaryOp) and isinstance(test.op, ast.Not):
+        v = _tri(test.operand, atom_pred, value)
+        return None if v is None else (not v)
+    if isinstance(test, ast.BoolOp):
+        vals = [_tri(v, atom_pred, value) for v in test.values]
+        if isinstance(test.op, ast.And):
+            if any(v is False for v in vals):
+                return False
+            return True if all(v is True for v in vals) else None
+        if any(v is True for v in vals):
+            return True
+        return False if all(v is False for v in vals) else None
+    if atom_pred(test):
+        return value
+    return None
+
+
+def _d5_fresh_cdx(ctx, hdr):
+    repo, ck = ctx.repo, ctx.check
+    from .. import flow as F
+    cls = repo.cls(CLS)
+    starters = [m for m in cls.methods.values() if any(
+        isinstance(a, ast.Assign) and not (isinstance(a.value, ast.Constant) and a.value.value is None) for a in F.assigned_attrs(m.node, '_cdx_filename'))]
+    if len(starters) != 1:
+        raise AnalysisError('expected one function that sets _cdx_filename, found %d' % len(starters))
+    st = starters[0]
+    cfg = ctx.cfg(st)
+    # how does the header writer open the file?
+    modes = []
+    for c in U.calls(hdr.node):
+        if dotted(c.func) == 'open' and c.args and norm_text(c.args[0]) == 'self._cdx_filename':
+            m = U.kwarg(c, 'mode', 1)
+            modes.append(m.value if isinstance(m, ast.Constant) else None)
+    hdr_truncates = bool(modes) and all(isinstance(m, str) and m.startswith('w') for m in modes)
+
+    def is_appending(t):
+        return isinstance(t, ast.Attribute) and t.attr == 'appending' or (isinstance(t, ast.Name) and t.id == 'appending')
+
+    def truncates(n):
+        for c in F.node_calls(n):
+            d = dotted(c.func) or ''
+            if d.endswith('truncate_file') and c.args and norm_text(c.args[0]) == 'self._cdx_filename':
+                return True
+            if d == 'open' and c.args and norm_text(c.args[0]) == 'self._cdx_filename':
+                m = U.kwarg(c, 'mode', 1)
+                if isinstance(m, ast.Constant) and isinstance(m.value, str) and m.value.startswith('w'):
+                    return True
+            if hdr_truncates and U.attr_name(c) == hdr.name:
+                return True
+        return False
+
+    def writes_header(n):
+        return any(U.attr_name(c) == hdr.name for c in F.node_calls(n))
+
+    def edge_ok(a, b, k):
+        if not F.normal(a, b, k):
+            return False
+        if a.kind == 'if' and k in ('T', 'F'):
+            v = _tri(a.stmt.test, is_appending, False)
+            if v is not None and (k == 'T') != v:
+                return False
+        return True
+    start = [n for n in cfg.stmt_nodes() if n.kind == 'stmt' and F.assigned_attrs(ast.Module(body=[n.stmt], type_ignores=[]), '_cdx_filename')]
+    if not start:
+        raise AnalysisError('%s: assignment of _cdx_filename not found in the CFG' % st.qual)
+    p = cfg.find_path(start[0], lambda m: m is cfg.exit, edge_ok=edge_ok, stop=truncates)
+    from ..cfg import describe_path
+    ck.expect(p is None, 'C07-D5', st.qual, 'not appending -> CDX file truncated on every path',
+              'with appending off the CDX file of an earlier run is kept: its lines give offsets into an archive that has been '
+              'rewritten, and a second header appears in the middle of the file', st.loc(), path=describe_path(p) if p else None)
+    p2 = cfg.find_path(start[0], lambda m: m is cfg.exit, edge_ok=edge_ok, stop=writes_header)
+    ck.expect(p2 is None, 'C07-D5', st.qual, 'not appending -> header written', 'a fresh CDX file can be left without its header line', st.loc(),
+              path=describe_path(p2) if p2 else None)
+
+
+def _first_char_classes(test, var):
+    """Truth of `test` for a line whose first character is SP / HTAB / another character / that is empty, or None when the
+    test looks at anything but the first character of `var` (constant folding over the four classes)."""
+    samples = {'SP': ' x', 'HTAB': '\tx', 'other': 'x', 'empty': ''}
+    out = {}
+    for cls_, val in samples.items():
+        try:
+            out[cls_] = bool(_fold_on(test, var, val))
+        except _NoFold:
+            return None
+    return out
+
+
+class _NoFold(Exception):
+    pass
+
+
+def _fold_on(e, var, val):
+    if isinstance(e, ast.Constant):
+        return e.value
+    if isinstance(e, ast.Name):
+        if e.id == var:
+            return val
+        raise _NoFold()
+    if isinstance(e, (ast.Tuple, ast.List, ast.Set)):
+        return tuple(_fold_on(x, var, val) for x in e.elts)
+    if isinstance(e, ast.UnaryOp) and isinstance(e.op, ast.Not):
+        return not _fold_on(e.operand, var, val)
+    if isinstance(e, ast.BoolOp):
+        r = None
+        for v in e.values:
+            r = _fold_on(v, var, val)
+            if isinstance(e.op, ast.And) and not r:
+                return r
+            if isinstance(e.op, ast.Or) and r:
+                return r
+        return r
+    if isinstance(e, ast.Subscript) and isinstance(e.value, ast.Name) and e.value.id == var:
+        sl = e.slice
+        if isinstance(sl, ast.Constant) and sl.value == 0:
+            if not val:
+                raise _NoFold()          # IndexError on an empty line: not a total test
+            return val[0]
+        if isinstance(sl, ast.Slice) and sl.step is None and (sl.lower is None or (isinstance(sl.lower, ast.Constant) and sl.lower.value == 0)) \
+                and isinstance(sl.upper, ast.Constant) and sl.upper.value == 1:
+            return val[:1]
+        raise _NoFold()
+    if isinstance(e, ast.Call) and isinstance(e.func, ast.Attribute) and e.func.attr == 'startswith' and isinstance(e.func.value, ast.Name) \
+            and e.func.value.id == var and len(e.args) == 1 and not e.keywords:
+        a = _fold_on(e.args[0], var, val)
+        if isinstance(a, str):
+            a = (a,)
+        if not (isinstance(a, tuple) and all(isinstance(x, str) and len(x) == 1 for x in a)):
+            raise _NoFold()
+        return val.startswith(a)
+    if isinstance(e, ast.Compare) and len(e.ops) == 1:
+        l, r = _fold_on(e.left, var, val), _fold_on(e.comparators[0], var, val)
+        op = e.ops[0]
+        if isinstance(op, ast.In):
+            return l in r
+        if isinstance(op, ast.NotIn):
+            return l not in r
+        if isinstance(op, ast.Eq):
+            return l == r
+        if isinstance(op, ast.NotEq):
+            return l != r
+    raise _NoFold()
+
+
+def _d6_header_lines(ctx):
+    repo, ck = ctx.repo, ctx.check
+    gh = repo.func('wpull.warc.format:WARCRecord.get_http_header')
+    fmod = repo.module('wpull.warc.format')
+    rxs = [r for r in (RX.rx_from_call(repo, fmod, c) for c in U.calls(gh.node)) if r is not None]
+    # does the block pattern accept a bare LF line end (an optional CR before LF)?
+    bare_lf = False
+    for rx in rxs:
+        items = list(rx.walk())
+        for i, (op, av) in enumerate(items):
+            if RX.is_repeat(op) and av[0] == 0 and len(list(av[2])) == 1 and list(av[2])[0] == (C.LITERAL, 13):
+                bare_lf = True
+        if not any(op is C.LITERAL and av == 13 for op, av in items):
+            bare_lf = True
+    # the cut of the first line
+    cuts = [c for c in U.calls(gh.node) if U.attr_name(c) in ('partition', 'split') and c.args]
+    okc = bool(cuts)
+    for c in cuts:
+        try:
+            sep = repo.fold(fmod, c.args[0])
+        except ValueError:
+            sep = None
+        if sep == b'\n':
+            continue
+        if sep == b'\r\n' and not bare_lf:
+            continue
+        okc = False
+    if not cuts:
+        okc = any(U.attr_name(c) == 'splitlines' for c in U.calls(gh.node))
+    ck.expect(okc, 'C07-D6', gh.qual, "status line cut at b'\\n' (the block pattern accepts bare LF line ends)",
+              'the status line is cut at CRLF only although the header block pattern (and the HTTP reader) accept bare LF: for such a '
+              'response the fields stay glued to the status line and the MIME column is lost', gh.loc(cuts[0]) if cuts else gh.loc())
+    # unfolding
+    uf = repo.func('wpull.namevalue:unfold_lines')
+    cont = None
+    for n in walk_no_nested(uf.node):
+        if isinstance(n, ast.If) and any(isinstance(c.args[0], ast.Constant) and c.args[0].value == ' '
+                                         for b in n.body for c in U.calls(b, attr='write') if c.args):
+            cont = n
+    if cont is None:
+        ck.bad('C07-D6', uf.qual, 'continuation lines are joined with a space', 'unfold_lines no longer joins continuation lines', uf.loc())
+        return
+    names = sorted({x.id for x in ast.walk(cont.test) if isinstance(x, ast.Name)})
+    tbl = _first_char_classes(cont.test, names[0]) if len(names) == 1 else None
+    want = {'SP': True, 'HTAB': True, 'other': False, 'empty': False}
+    ck.expect(tbl == want, 'C07-D6', uf.qual, 'continuation iff the line starts with SP or HTAB: %s' % (tbl,),
+              'header unfolding does not treat exactly the lines starting with SP or HTAB as continuations (%s): a Content-Type folded '
+              'with a tab is dropped by the lenient parser and the CDX MIME column is lost' % (tbl,), uf.loc(cont))
